@@ -34,16 +34,16 @@ func vGenTarget(tag string) string {
 	return "*"
 }
 
-// vGenElems: 0..maxElems elements (count case-split), names symbolic (possibly empty), optional single key
-func vGenElems(tag string, maxElems int) []*gnmi.PathElem {
+// vGenElems: 0..maxElems elements (count case-split), names symbolic of 0..nameLen bytes, optional single key
+func vGenElems(tag string, maxElems, nameLen int, withKey bool) []*gnmi.PathElem {
 	n := verifrt.Fork(tag+".nelem", maxElems+1)
 	var elems []*gnmi.PathElem
 	for i := 0; i < n; i++ {
 		t := tag + ".e" + vd(i)
-		e := &gnmi.PathElem{Name: verifrt.NondetString(t+".name", verifrt.Param("namelen"), vNameAlpha)}
-		if verifrt.NondetBool(t + ".haskey") {
+		e := &gnmi.PathElem{Name: verifrt.NondetString(t+".name", nameLen, vNameAlpha)}
+		if withKey && verifrt.NondetBool(t+".haskey") {
 			e.Key = map[string]string{
-				verifrt.NondetString(t+".kname", 1, "k="): verifrt.NondetString(t+".kval", verifrt.Param("vallen"), "1a*/]("),
+				verifrt.NondetString(t+".kname", 1, "k="): verifrt.NondetString(t+".kval", 1, "1*/]("),
 			}
 		}
 		elems = append(elems, e)
@@ -51,11 +51,12 @@ func vGenElems(tag string, maxElems int) []*gnmi.PathElem {
 	return elems
 }
 
-func vGenPath(tag string, maxElems int) *gnmi.Path {
+// vGenPath: nil or a path with a symbolic target and generated elements
+func vGenPath(tag string, maxElems, nameLen int, withKey bool) *gnmi.Path {
 	if verifrt.NondetBool(tag + ".nil") {
 		return nil
 	}
-	return &gnmi.Path{Target: vGenTarget(tag + ".target"), Elem: vGenElems(tag, maxElems)}
+	return &gnmi.Path{Target: vGenTarget(tag + ".target"), Elem: vGenElems(tag, maxElems, nameLen, withKey)}
 }
 
 // vGenValue: nil, unset oneof, or one of the alternatives that need no number conversion (those are C17's subject)
